@@ -279,6 +279,8 @@ type zzCluster struct {
 	foreignRollbackAllowed bool
 	foreignRolledBack      bool
 	onePCAllowed           bool
+	lockExpired            bool     // what the store answers about ttl expiry to a foreign resolver
+	realResolver           func(key []byte) // runs another client's real LockResolver on the lock of key
 	noForeignResolver      bool     // the foreign-resolver event is not part of the script
 	regionErrorsOnly       bool     // the script may only inject retryable region errors (no lost messages)
 	flushes                []*kvrpcpb.FlushRequest
@@ -533,6 +535,77 @@ func (c *zzCluster) snapshotGet(key []byte, version uint64) ([]byte, bool, *kvrp
 	return best.value, true, nil
 }
 
+// checkTxnStatus models TiKV's CheckTxnStatus on the primary key. Whether the
+// lock's ttl has elapsed at CurrentTs is the environment's choice (c.lockExpired):
+// "resolvers that consider the lock expired while the committer is still running".
+func (c *zzCluster) checkTxnStatus(r *kvrpcpb.CheckTxnStatusRequest) *kvrpcpb.CheckTxnStatusResponse {
+	out := &kvrpcpb.CheckTxnStatusResponse{}
+	ks := c.key(r.PrimaryKey)
+	if ks.lock != nil && ks.lock.startTS == r.LockTs {
+		l := ks.lock
+		if r.VerifyIsPrimary && !bytes.Equal(l.primary, r.PrimaryKey) {
+			out.Error = &kvrpcpb.KeyError{PrimaryMismatch: &kvrpcpb.PrimaryMismatch{LockInfo: zzKeyErrLocked(ks).Locked}}
+			return out
+		}
+		if l.async && !r.ForceSyncCommit {
+			out.LockTtl = l.ttl
+			out.LockInfo = zzKeyErrLocked(ks).Locked
+			out.Action = kvrpcpb.Action_NoAction
+			return out
+		}
+		if c.lockExpired || r.CurrentTs == ^uint64(0) {
+			c.rollbackKey(r.PrimaryKey, r.LockTs)
+			c.foreignRolledBack = true
+			out.Action = kvrpcpb.Action_TTLExpireRollback
+			return out
+		}
+		if r.CallerStartTs >= l.minCommitTS {
+			l.minCommitTS = r.CallerStartTs + 1
+			out.Action = kvrpcpb.Action_MinCommitTSPushed
+		}
+		out.LockTtl = l.ttl
+		out.LockInfo = zzKeyErrLocked(ks).Locked
+		return out
+	}
+	if w := ks.record(r.LockTs); w != nil {
+		out.CommitVersion = w.commitTS
+		out.Action = kvrpcpb.Action_NoAction
+		return out
+	}
+	if r.RollbackIfNotExist {
+		c.rollbackKey(r.PrimaryKey, r.LockTs)
+		c.foreignRolledBack = true
+		out.Action = kvrpcpb.Action_LockNotExistRollback
+		return out
+	}
+	out.Error = &kvrpcpb.KeyError{TxnNotFound: &kvrpcpb.TxnNotFound{StartTs: r.LockTs, PrimaryKey: r.PrimaryKey}}
+	return out
+}
+
+// checkSecondaryLocks models TiKV's CheckSecondaryLocks: a key that carries
+// neither the lock nor a commit record gets a rollback record.
+func (c *zzCluster) checkSecondaryLocks(r *kvrpcpb.CheckSecondaryLocksRequest) *kvrpcpb.CheckSecondaryLocksResponse {
+	out := &kvrpcpb.CheckSecondaryLocksResponse{}
+	for _, k := range r.Keys {
+		ks := c.key(k)
+		if ks.lock != nil && ks.lock.startTS == r.StartVersion {
+			out.Locks = append(out.Locks, zzKeyErrLocked(ks).Locked)
+			continue
+		}
+		if w := ks.record(r.StartVersion); w != nil && w.commitTS != 0 {
+			out.CommitTs = w.commitTS
+			out.Locks = nil
+			return out
+		}
+		c.rollbackKey(k, r.StartVersion)
+		c.foreignRolledBack = true
+		out.CommitTs = 0
+		out.Locks = nil
+		return out
+	}
+	return out
+}
+
 func (c *zzCluster) commit(r *kvrpcpb.CommitRequest) *kvrpcpb.CommitResponse {
 	resp := &kvrpcpb.CommitResponse{}
 	for _, k := range r.Keys {
@@ -694,7 +767,25 @@ func (c *zzClient) SendRequest(ctx context.Context, addr string, req *tikvrpc.Re
 		rpc.answered = true
 		return finish(resp, nil)
 	case zzEvForeignResolve:
-		cl.foreignResolve(cl.primary, cl.startTS)
+		if cl.realResolver != nil {
+			// another client meets one of our locks and runs the REAL lock resolver
+			// on it; its RPCs come back into this client (no faults are injected on them)
+			var locked [][]byte
+			for _, ks := range cl.keys {
+				if ks.lock != nil && ks.lock.startTS == cl.startTS {
+					locked = append(locked, ks.key)
+				}
+			}
+			k := locked[zzChoice("foreign.meets", len(locked))]
+			saved := cl.faults
+			cl.faults = 0
+			cl.mu.Unlock()
+			cl.realResolver(k)
+			cl.mu.Lock()
+			cl.faults = saved
+		} else {
+			cl.foreignResolve(cl.primary, cl.startTS)
+		}
 	case zzEvCommitTsExpired:
 		r := req.Commit()
 		rpc.answered = true
@@ -717,6 +808,19 @@ func (c *zzClient) SendRequest(ctx context.Context, addr string, req *tikvrpc.Re
 			if e := cl.rollbackKey(k, r.StartVersion); e != nil {
 				out.Error = e
 			}
+		}
+		resp = &tikvrpc.Response{Resp: out}
+	case tikvrpc.CmdCheckTxnStatus:
+		resp = &tikvrpc.Response{Resp: cl.checkTxnStatus(req.CheckTxnStatus())}
+	case tikvrpc.CmdCheckSecondaryLocks:
+		resp = &tikvrpc.Response{Resp: cl.checkSecondaryLocks(req.CheckSecondaryLocks())}
+	case tikvrpc.CmdCleanup:
+		r := req.Cleanup()
+		out := &kvrpcpb.CleanupResponse{}
+		if w := cl.key(r.Key).record(r.StartVersion); w != nil && w.commitTS != 0 {
+			out.CommitVersion = w.commitTS
+		} else if e := cl.rollbackKey(r.Key, r.StartVersion); e != nil {
+			out.Error = e
 		}
 		resp = &tikvrpc.Response{Resp: out}
 	case tikvrpc.CmdGet:
@@ -786,7 +890,20 @@ func (c *zzClient) SendRequest(ctx context.Context, addr string, req *tikvrpc.Re
 			}
 		}
 		out := &kvrpcpb.ResolveLockResponse{}
-		if len(r.Keys) == 0 && len(r.TxnInfos) == 0 && region != nil {
+		if len(r.TxnInfos) == 0 && len(r.Keys) > 0 {
+			// resolve-lock-lite: only the listed keys
+			for _, k := range r.Keys {
+				ks := cl.key(k)
+				if ks.lock != nil && ks.lock.startTS == r.StartVersion {
+					if r.CommitVersion != 0 {
+						ks.writes = append(ks.writes, zzWrite{startTS: r.StartVersion, commitTS: r.CommitVersion, op: ks.lock.op, value: ks.lock.value})
+					} else {
+						ks.writes = append(ks.writes, zzWrite{startTS: r.StartVersion, commitTS: 0})
+					}
+					ks.lock = nil
+				}
+			}
+		} else if len(r.Keys) == 0 && len(r.TxnInfos) == 0 && region != nil {
 			for _, ks := range cl.keys {
 				if ks.lock != nil && ks.lock.startTS == r.StartVersion && zzRegionHas(region, ks.key) {
 					if r.CommitVersion != 0 {
